@@ -258,7 +258,7 @@ def cms_depth(ctx, cfg):
 
 def _finger_oracle(b, e):
     from probables import CuckooFilter
-    if not 2.0 ** -24 < e < 0.5:
+    if not 2.0 ** -31 < e < 0.5:
         return False
     f = CuckooFilter.init_error_rate(e, capacity=4, bucket_size=b)
     bits = f.fingerprint_size_bits
@@ -282,7 +282,7 @@ def cuckoo_bits(ctx, cfg):
         ctx.patch(ck, "int", fp.IntShim)
     install()
     e = ctx.fp("e")
-    ctx.assume(z3.And(z3.fpGT(e.t, z3.FPVal(2.0 ** -24, fp.D)), z3.fpLT(e.t, z3.FPVal(0.5, fp.D))))
+    ctx.assume(z3.And(z3.fpGT(e.t, z3.FPVal(2.0 ** -31, fp.D)), z3.fpLT(e.t, z3.FPVal(0.5, fp.D))))
     f = CuckooFilter(capacity=4, bucket_size=b)
     f._set_error_rate(e)
     D, RNE = fp.D, fp.RNE
@@ -291,7 +291,9 @@ def cuckoo_bits(ctx, cfg):
                      z3.BitVecSort(64))
     bits = f.fingerprint_size_bits
     uf_check(ctx, (bits.t if isinstance(bits, fp.SI) else z3.BitVecVal(int(bits), 64)) == ref, "cuckoo-bits-is-documented-formula", {"e": e.t},
-             lambda v: _finger_oracle(b, v["e"]), install)
+             lambda v: _finger_oracle(b, v["e"]), install,
+             regions=[z3.And(z3.fpGT(e.t, z3.FPVal(lo, D)), z3.fpLT(e.t, z3.FPVal(hi, D)))
+                      for lo, hi in ((2.0 ** -31, 2.0 ** -28), (2.0 ** -28, 2.0 ** -20), (1e-4, 1e-3), (0.009, 0.011), (0.1, 0.3))])
 
 
 def cuckoo_reload(ctx, cfg):
